@@ -274,11 +274,16 @@ impl Lexer {
     #[allow(clippy::too_many_lines)]
     fn next_token(&mut self) -> Option<Result<Token, LexError>> {
         self.skip_ws();
-        // A dot that does not start a directive is skipped (in a loop: a long run of
-        // dots must not use one stack frame each)
-        while self.current() == Some('.') && !self.peek(1).is_some_and(Self::is_symbol_char) {
+        // A dot that does not start a directive is no token of the language
+        if self.current() == Some('.') && !self.peek(1).is_some_and(Self::is_symbol_char) {
+            let pos = self.get_range();
             self.consume_char();
-            self.skip_ws();
+            return Some(Err(LexError::UnexpectedToken(Box::new(Token::new(
+                TokenType::Symbol(".".to_string()),
+                ".".to_string(),
+                pos,
+                self.source_id,
+            )))));
         }
 
         // TODO(rajan): ensure that we are consistent with whether the tokens are included or not in the Token representation
